@@ -12,13 +12,15 @@ namespace Astria.Conductor
 
 /-- Hypotheses on the execution session: what `ExecutionSession::try_from_raw` /
     `State::try_from_execution_session` guarantee (`firm0 ≤ soft0`, `R ≤ firm0 + 1`), a
-    sequencer start height of at least 1, and — for a firm-only conductor — a rollup whose soft
-    head is its firm block (otherwise the rollup refuses the very first `ExecuteBlock`). -/
+    sequencer start height of at least 1, — for a firm-only conductor — a rollup whose soft
+    head is its firm block (otherwise the rollup refuses the very first `ExecuteBlock`), and a
+    rollup that honours the execution API contract (no fault injection). -/
 structure Cfg.WF (cfg : Cfg) : Prop where
   firm_le_soft : cfg.firm0 ≤ cfg.soft0
   start_ok : cfg.rollupStart ≤ cfg.firm0 + 1
   seq_pos : 1 ≤ cfg.seqStart
   firmOnly_eq : cfg.mode = .firmOnly → cfg.firm0 = cfg.soft0
+  honest : cfg.lie = 0
 
 /-! ## Part A: accepted histories -/
 
@@ -610,12 +612,12 @@ theorem pendLookup_erase (k k' : Nat) (b : Blk) (l : List (Nat × Blk))
 
 /-! ### evaluation of the rollup and of `update_commitment_state` when everything is in order -/
 
-theorem executeBlock_head (r : Rollup) (seq : Nat) :
+theorem executeBlock_head (r : Rollup) (seq : Nat) (hl : r.lieAt = 0) :
     r.executeBlock r.c.soft.id seq =
       (.ok ⟨r.c.soft.number + 1, r.nextId, r.c.soft.id, seq⟩,
        { r with blocks := ⟨r.c.soft.number + 1, r.nextId, r.c.soft.id, seq⟩ :: r.blocks,
-                nextId := r.nextId + 1 }) := by
-  simp [Rollup.executeBlock]
+                nextId := r.nextId + 1, execs := r.execs + 1 }) := by
+  simp [Rollup.executeBlock, hl]
 
 theorem update_ok (r : Rollup) (f s : Blk) (cel : Nat) (hf : f ∈ r.blocks) (hs : s ∈ r.blocks)
     (hfs : f.number ≤ s.number) (h1 : r.c.firm.number ≤ f.number) (h2 : r.c.soft.number ≤ s.number) :
@@ -640,12 +642,12 @@ theorem updateCommitment_ok (s : Sys) (u : Update)
 theorem executeSoft_inorder (s : Sys) (h : Nat) (heq : h = s.nextSoft) (hS : s.cfg.seqStart ≤ h)
     (hsync : s.ru.c = s.ex.c) (hfirm : s.ex.c.firm ∈ s.ru.blocks)
     (hfs : s.ex.c.firm.number ≤ s.ex.c.soft.number)
-    (hmap : s.cfg.rollupStart ≤ s.ex.c.soft.number + 2) :
+    (hmap : s.cfg.rollupStart ≤ s.ex.c.soft.number + 2) (hl : s.ru.lieAt = 0) :
     executeSoft s h =
       ({ s with
           ru := { blocks := ⟨s.ex.c.soft.number + 1, s.ru.nextId, s.ex.c.soft.id, h⟩ :: s.ru.blocks,
                   c := ⟨s.ex.c.firm, ⟨s.ex.c.soft.number + 1, s.ru.nextId, s.ex.c.soft.id, h⟩, s.ex.c.cel⟩,
-                  nextId := s.ru.nextId + 1 },
+                  nextId := s.ru.nextId + 1, lieAt := s.ru.lieAt, execs := s.ru.execs + 1 },
           ex := { c := ⟨s.ex.c.firm, ⟨s.ex.c.soft.number + 1, s.ru.nextId, s.ex.c.soft.id, h⟩, s.ex.c.cel⟩,
                   pending := pendInsert (h - s.cfg.seqStart + s.cfg.rollupStart)
                     ⟨s.ex.c.soft.number + 1, s.ru.nextId, s.ex.c.soft.id, h⟩ s.ex.pending } },
@@ -658,7 +660,7 @@ theorem executeSoft_inorder (s : Sys) (h : Nat) (heq : h = s.nextSoft) (hS : s.c
     unfold seqToRollup; rw [if_neg (by omega)]
   rw [hmapS]
   simp only
-  have hx := executeBlock_head s.ru h
+  have hx := executeBlock_head s.ru h hl
   rw [hsync] at hx
   rw [hx]
   simp only [ne_eq, not_true_eq_false, if_false]
@@ -675,13 +677,13 @@ theorem executeSoft_inorder (s : Sys) (h : Nat) (heq : h = s.nextSoft) (hS : s.c
 theorem executeFirm_execute (s : Sys) (h cel : Nat) (heq : h = s.nextFirm) (hS : s.cfg.seqStart ≤ h)
     (hshould : shouldExecuteFirm s.nextFirm s.nextSoft s.cfg.mode = true)
     (hsync : s.ru.c = s.ex.c) (hfs : s.ex.c.firm = s.ex.c.soft)
-    (hmap : s.cfg.rollupStart ≤ s.ex.c.soft.number + 2) :
+    (hmap : s.cfg.rollupStart ≤ s.ex.c.soft.number + 2) (hl : s.ru.lieAt = 0) :
     executeFirm s h cel =
       ({ s with
           ru := { blocks := ⟨s.ex.c.soft.number + 1, s.ru.nextId, s.ex.c.soft.id, h⟩ :: s.ru.blocks,
                   c := ⟨⟨s.ex.c.soft.number + 1, s.ru.nextId, s.ex.c.soft.id, h⟩,
                         ⟨s.ex.c.soft.number + 1, s.ru.nextId, s.ex.c.soft.id, h⟩, cel⟩,
-                  nextId := s.ru.nextId + 1 },
+                  nextId := s.ru.nextId + 1, lieAt := s.ru.lieAt, execs := s.ru.execs + 1 },
           ex := { c := ⟨⟨s.ex.c.soft.number + 1, s.ru.nextId, s.ex.c.soft.id, h⟩,
                         ⟨s.ex.c.soft.number + 1, s.ru.nextId, s.ex.c.soft.id, h⟩, cel⟩,
                   pending := s.ex.pending } },
@@ -695,7 +697,7 @@ theorem executeFirm_execute (s : Sys) (h cel : Nat) (heq : h = s.nextFirm) (hS :
     unfold seqToRollup; rw [if_neg (by omega)]
   rw [hmapS]
   simp only [hshould, if_true]
-  have hx := executeBlock_head s.ru h
+  have hx := executeBlock_head s.ru h hl
   rw [hsync] at hx
   rw [hfs, hx]
   simp only [ne_eq, not_true_eq_false, if_false]
@@ -788,6 +790,7 @@ structure SimInv (cfg : Cfg) (s : Sys) (m : Mon) : Prop where
   ids : ∀ b ∈ m.known, b.id < s.ru.nextId
   pend : ∀ k b, pendLookup k s.ex.pending = some b → b ∈ m.known ∧ b.number = k
   firmOnly : cfg.mode = .firmOnly → m.c.firm = m.c.soft
+  honest : s.ru.lieAt = 0
 
 theorem initBlocksAux_head (cfg : Cfg) (k : Nat) :
     ∃ rest, initBlocksAux cfg k = ⟨cfg.firm0 + k, k + 1, k, nextSeq cfg (cfg.firm0 + k) - 1⟩ :: rest := by
@@ -822,7 +825,7 @@ theorem initFirm_mem (cfg : Cfg) (k : Nat) : initFirm cfg ∈ initBlocksAux cfg 
   | succ k ih => simp only [initBlocksAux, List.mem_cons]; right; exact ih
 
 theorem simInv_init (cfg : Cfg) (hwf : cfg.WF) : SimInv cfg (Sys.init cfg) (Mon.init cfg) := by
-  obtain ⟨h1, h2, h3, h4⟩ := hwf
+  obtain ⟨h1, h2, h3, h4, h5⟩ := hwf
   have hsoft : cfg.firm0 + (cfg.soft0 - cfg.firm0) = cfg.soft0 := by omega
   constructor
   · rfl
@@ -849,6 +852,7 @@ theorem simInv_init (cfg : Cfg) (hwf : cfg.WF) : SimInv cfg (Sys.init cfg) (Mon.
     simp only [Mon.init, initCommit, initFirm, initSoft]
     have h0 : cfg.soft0 - cfg.firm0 = 0 := by omega
     simp [h0]
+  · exact h5
 
 
 theorem step_sim_soft (cfg : Cfg) (s : Sys) (m : Mon) (h : Nat) (hi : SimInv cfg s m)
@@ -875,7 +879,7 @@ theorem step_sim_soft (cfg : Cfg) (s : Sys) (m : Mon) (h : Nat) (hi : SimInv cfg
       have hev := executeSoft_inorder s h (by omega)
         (by rw [hi.cfg_eq]; omega) (by rw [hi.ru_c, hi.ex_c])
         (by rw [hi.ex_c, hi.blocks]; exact hi.firm_in) (by rw [hi.ex_c]; exact hfs)
-        (by rw [hi.cfg_eq, hi.ex_c]; omega)
+        (by rw [hi.cfg_eq, hi.ex_c]; omega) hi.honest
       rw [hev]
       simp only [hi.ex_c, hi.blocks, hi.cfg_eq]
       refine ⟨{ known := ⟨m.c.soft.number + 1, s.ru.nextId, m.c.soft.id, h⟩ :: m.known,
@@ -920,6 +924,7 @@ theorem step_sim_soft (cfg : Cfg) (s : Sys) (m : Mon) (h : Nat) (hi : SimInv cfg
           · obtain ⟨h1, h2⟩ := hi.pend k b hl'
             exact ⟨List.mem_cons_of_mem _ h1, h2⟩
         · intro hm; rw [hm] at hadm; simp [Mode.withSoft] at hadm
+        · exact hi.honest
 
 
 theorem step_sim_firm (cfg : Cfg) (s : Sys) (m : Mon) (h cel : Nat) (hi : SimInv cfg s m)
@@ -967,6 +972,7 @@ theorem step_sim_firm (cfg : Cfg) (s : Sys) (m : Mon) (h cel : Nat) (hi : SimInv
       have hnumeq : m.c.firm.number = m.c.soft.number := by rw [hsame]
       have hev := executeFirm_execute s h cel (by rw [hnextF]; unfold nextSeq; exact heq) hhS hshould
         (by rw [hi.ru_c, hi.ex_c]) (by rw [hi.ex_c]; exact hsame) (by rw [hi.cfg_eq, hi.ex_c]; omega)
+        hi.honest
       rw [hev]
       simp only [hi.ex_c, hi.blocks, hi.cfg_eq]
       refine ⟨{ known := ⟨m.c.soft.number + 1, s.ru.nextId, m.c.soft.id, h⟩ :: m.known,
@@ -1009,6 +1015,7 @@ theorem step_sim_firm (cfg : Cfg) (s : Sys) (m : Mon) (h cel : Nat) (hi : SimInv
           obtain ⟨h1, h2⟩ := hi.pend k b hl
           exact ⟨List.mem_cons_of_mem _ h1, h2⟩
         · intro _; rfl
+        · exact hi.honest
     · -- nothing is executed: the firm commitment follows the soft chain
       have hmode : cfg.mode = .softAndFirm := by
         cases hm : cfg.mode with
@@ -1034,7 +1041,8 @@ theorem step_sim_firm (cfg : Cfg) (s : Sys) (m : Mon) (h cel : Nat) (hi : SimInv
           (pre = [] ∨ pre = [.get b.number (.ok b)]) →
           ∃ m', m.stepEvent cfg ⟨.firm h cel, .ok, pre ++ [.update b m.c.soft cel (.ok ())]⟩ = some m' ∧
             SimInv cfg { cfg := cfg, ex := { c := ⟨b, m.c.soft, cel⟩, pending := pend' },
-                         ru := { blocks := m.known, c := ⟨b, m.c.soft, cel⟩, nextId := s.ru.nextId } } m' := by
+                         ru := { blocks := m.known, c := ⟨b, m.c.soft, cel⟩, nextId := s.ru.nextId,
+                                 lieAt := s.ru.lieAt, execs := s.ru.execs } } m' := by
         intro b pend' pre hb hnum hpend hpre
         have hseq := hi.seq_ok b hb
         refine ⟨{ m with c := ⟨b, m.c.soft, cel⟩ }, ?_, ?_⟩
@@ -1069,6 +1077,7 @@ theorem step_sim_firm (cfg : Cfg) (s : Sys) (m : Mon) (h cel : Nat) (hi : SimInv
           · exact hi.ids
           · exact hpend
           · intro hm; rw [hmode] at hm; exact absurd hm (by decide)
+          · exact hi.honest
       cases hl : pendLookup (h - s.cfg.seqStart + s.cfg.rollupStart) s.ex.pending with
       | some b =>
         obtain ⟨hb, hnum⟩ := hi.pend _ b hl
@@ -1096,6 +1105,7 @@ theorem step_sim_firm (cfg : Cfg) (s : Sys) (m : Mon) (h cel : Nat) (hi : SimInv
           have hnum : b.number = m.c.firm.number + 1 := by simpa using List.find?_some hfind
           have hget : s.ru.getBlock (h - s.cfg.seqStart + s.cfg.rollupStart) = .ok b := by
             unfold Rollup.getBlock
+            simp only [hi.honest, ne_eq, not_true_eq_false, if_false]
             rw [hbn, hi.ru_c, if_neg (by omega), hi.blocks, hfind]
           have hev := executeFirm_fetch s h cel b (by rw [hnextF]; unfold nextSeq; exact heq) hhS hshould hl
             hget (by rw [hbn]; exact hnum)
